@@ -298,13 +298,13 @@ Definition reader_exact (rd : reader) (v : sval) : bool :=
   | Some d => match read_d rd d with inl v' => sval_eqb v v' | inr _ => false end
   | None => false
   end.
-Definition wf_attr (o : obj) (r : rfield) : bool :=
+Definition wf_attr_flat (o : obj) (r : rfield) : bool :=
   match attr (rkey r) o with
   | None => ropt r                                   (* only optional fields may be None *)
   | Some (OS v) => reader_exact (rrd r) v
   | Some (OD _) => false
   end.
-Definition wf_obj (s : cls_spec) (o : obj) : bool := forallb (wf_attr o) (reads s).
+Definition wf_obj_flat (s : cls_spec) (o : obj) : bool := forallb (wf_attr_flat o) (reads s).
 
 Fixpoint nodup_z (l : list str) : bool := match l with [] => true | x :: t => negb (existsb (str_eqb x) t) && nodup_z t end.
 Lemma nodup_z_spec l : nodup_z l = true -> NoDup l.
@@ -339,7 +339,7 @@ Qed.
 Section RoundTrip.
 Variables (s : cls_spec) (o : obj).
 Hypothesis Hspec : flat_spec s = true.
-Hypothesis Hwf : wf_obj s o = true.
+Hypothesis Hwf : wf_obj_flat s o = true.
 
 Let items := data_dict s o.
 
@@ -371,8 +371,8 @@ Proof.
     apply andb_prop in E as [E1 E2]. apply String.eqb_eq in E1. apply negb_true_iff in E2. exists r. auto.
 Qed.
 
-Lemma wf_attr_of r : In r (reads s) -> wf_attr o r = true.
-Proof. intro H. unfold wf_obj in Hwf. rewrite forallb_forall in Hwf. exact (Hwf _ H). Qed.
+Lemma wf_attr_flat_of r : In r (reads s) -> wf_attr_flat o r = true.
+Proof. intro H. unfold wf_obj_flat in Hwf. rewrite forallb_forall in Hwf. exact (Hwf _ H). Qed.
 
 Lemma item_of_read r : In r (reads s) ->
   In (zs (rkey r), to_item (attr (rkey r) o)) items
@@ -384,7 +384,7 @@ Lemma item_of_read r : In r (reads s) ->
 Proof.
   intro Hr. destruct spec_parts as [_ [_ [Hrd _]]]. destruct (Hrd r Hr) as [Hin _]. split.
   - unfold items, data_dict. apply in_map_iff. exists (rkey r, rkey r). split; [reflexivity | exact Hin].
-  - pose proof (wf_attr_of r Hr) as W. unfold wf_attr in W. destruct (attr (rkey r) o) as [[v|l]|]; [| discriminate | split; [reflexivity | exact W]].
+  - pose proof (wf_attr_flat_of r Hr) as W. unfold wf_attr_flat in W. destruct (attr (rkey r) o) as [[v|l]|]; [| discriminate | split; [reflexivity | exact W]].
     unfold reader_exact in W. destruct (encode v) as [d|] eqn:E; [|discriminate]. exists d. split; [reflexivity|]. split; [cbn; rewrite E; reflexivity|].
     destruct (read_d (rrd r) d) as [v'|] eqn:R; [|discriminate]. apply sval_eqb_eq in W. subst v'. reflexivity.
 Qed.
@@ -455,7 +455,7 @@ Fixpoint write_all (fx : ver) (s : cls_spec) (f : file) (g : option str) (os : l
 
 Theorem read_after_writes_flat (s : cls_spec) : flat_spec s = true ->
   forall (os : list obj) (o : obj) (f f' : file) (g : option str) (nt : Z),
-  wf_obj s o = true -> write_all VCur s f g (os ++ [o]) = (f', None) -> from_hdf5 s nt f' g = construct s nt (proj s o).
+  wf_obj_flat s o = true -> write_all VCur s f g (os ++ [o]) = (f', None) -> from_hdf5 s nt f' g = construct s nt (proj s o).
 Proof.
   intros Hs os. induction os as [|o0 t IH]; intros o f f' g nt Hwf Hw.
   - cbn [app write_all] in Hw. destruct (to_hdf5 VCur s f g o true) as [f1 [e|]] eqn:E; [discriminate|].
@@ -591,7 +591,7 @@ End Success.
 
 (** a well-typed object of a flat class can always be written over a location whose group path is free *)
 Theorem to_hdf5_succeeds (s : cls_spec) (o : obj) (f : file) (g : option str) :
-  flat_spec s = true -> wf_obj s o = true -> g <> Some [] ->
+  flat_spec s = true -> wf_obj_flat s o = true -> g <> Some [] ->
   (forall gn, norm_group g = inl gn -> group_free f (split_path gn)) ->
   exists f', to_hdf5 VCur s f g o true = (f', None).
 Proof.
